@@ -42,7 +42,7 @@ impl Property for C02 {
         "cases: 2D/3D polylines (2-200 vertices quick, 400 thorough; long-thin, spirals, dense-then-sparse, lattice paths with self-touching) or meshes (grids with random diagonals, L-shapes, tubes, fans, boxes, octahedra, icospheres, tori, prisms; shuffled numbering; any pose; 2-600 faces) with 10-40 query points constructed on an element, offset from it (1e-6..3 scale), near vertices/creases, or far away; plus a distance cap and an angle for the filtered projections. Oracle: exhaustive scan over all edges/faces in the harness (own point-segment and Ericson point-triangle routines). Non-trivial: >= 8 elements and the optimum is not attained on element 0. Distinct = distinct canonical JSON."
     }
     fn cases(t: Tier) -> u32 {
-        t.pick(60_000, 1_500_000)
+        t.pick(300_000, 1_500_000)
     }
     fn expected_labels() -> Vec<&'static str> {
         vec!["curve2", "curve3", "mesh", "on_entity", "vertex_region", "edge_region", "face_region", "cap_inside", "cap_outside", "angle_accept", "angle_reject", "solid", "closed_mesh", "open_mesh"]
